@@ -159,6 +159,7 @@ func (ld *Loaded) load() error {
 		inconclusive: map[string][]string{},
 		shared:       map[*ssa.Global]*value{},
 		sharedPkgs:   map[*ssa.Package]bool{},
+		sharedErr:    map[*ssa.Package]string{},
 		skip:         map[string]bool{},
 	}
 	eng.intrinsics = stdIntrinsics(eng)
@@ -326,7 +327,7 @@ func (ld *Loaded) explore(h *HarnessSpec, o ExploreOpts) *HarnessResult {
 				}
 				stack = append(stack, p.alts...)
 				if res.Paths >= o.MaxPaths || time.Now().After(o.Deadline) || solver.dead {
-					if len(stack) > 0 || active > 0 {
+					if (len(stack) > 0 || active > 0) && !stop {
 						why := "path budget"
 						if time.Now().After(o.Deadline) {
 							why = "time budget"
